@@ -328,21 +328,20 @@ def eval_case(ctx, c, ens, probs):
     if not np.isfinite(err) or err > TOL:
         case["err"] = err
         suffix = ""
-        if np.isfinite(err) and err < 1e-3 and c["initializer"] == "LowRankInitialize" \
-                and (c["opt_params"] or {}).get("unitary_scheme", "qsd") == "qsd" and not c.get("_retry"):
-            # DESIGN section 6 #14: Qiskit's _apply_a2 (used by the qsd scheme only) loses ~1e-5 on some real
-            # orthogonal blocks.  Classify: does the same input pass with unitary_scheme='csd'?
-            c2 = dict(c)
-            c2["opt_params"] = dict(c["opt_params"] or {}, unitary_scheme="csd")
-            c2["_retry"] = True
+        if np.isfinite(err) and err < 1e-3 and c["initializer"] == "LowRankInitialize":
+            # DESIGN section 6 #14: Qiskit's _apply_a2 (used by LowRankInitialize's unitary AND isometry synthesis,
+            # whatever unitary_scheme says) loses ~1e-5 on some real orthogonal blocks.  Classify: is the same
+            # ensemble exact when the purification is prepared by an initializer that does not use it?
             try:
-                circ2, _ = build(ens, probs, c2["initializer"], c2["opt_params"], c2["classical"], False, "constructor",
-                                 c2["as_lists"], c2["probs_array"])
+                circ2, _ = build(ens, probs, "UCGInitialize", None, c["classical"], False, "constructor",
+                                 c["as_lists"], c["probs_array"])
                 psi2 = Statevector.from_label("0" * circ2.num_qubits).evolve(circ2).data
                 rho2, _ = reduced_from_vector(psi2, na)
                 if float(np.abs(rho2 - ref).max()) <= TOL:
-                    suffix = " [qiskit-a2: exact with unitary_scheme='csd']"
-            except Exception:  # noqa: BLE001
+                    suffix = " [inner LowRankInitialize accuracy: exact with initializer=UCGInitialize]"
+            except (KeyboardInterrupt, SystemExit):
+                raise
+            except BaseException:  # noqa: BLE001
                 pass
         ctx.violation(f"{tag}: reduced state of the data qubits differs from sum_i p_i|psi_i><psi_i| by {err:.3g}{suffix}", case)
         ok = False
